@@ -1,6 +1,7 @@
 package limit_test
 
 import (
+	"context"
 	"fmt"
 	"sort"
 	"sync"
@@ -20,6 +21,7 @@ type c08POp struct {
 	Key int    `json:"key,omitempty"` // key index
 	N   int    `json:"n,omitempty"`   // ctake: number of concurrent callers
 	D   int    `json:"d,omitempty"`   // adv: milliseconds (server FastForward + virtual sleep)
+	Ctx bool   `json:"ctx,omitempty"` // take: through TakeCtx(context.Background(), ...)
 }
 
 type c08PCase struct {
@@ -95,9 +97,12 @@ func c08WindowSeconds(period int, align bool, now time.Time) int64 {
 func c08PeriodInterp(t *testing.T, c c08PCase) (v kit.Verdict) {
 	srv := c08GetServer()
 	srv.reset()
+	c08Seq++
+	prefix := fmt.Sprintf("c08p%d:", c08Seq)
 	var fail string
 	classes := map[string]bool{}
 	nontrivial := false
+	stalled := false
 	res := kit.Bubble(t, func() {
 		store := redis.New(srv.addr)
 		var opts []limit.PeriodOption
@@ -105,7 +110,7 @@ func c08PeriodInterp(t *testing.T, c c08PCase) (v kit.Verdict) {
 			opts = append(opts, limit.Align())
 			classes["align"] = true
 		}
-		pl := limit.NewPeriodLimit(c.Period, c.Quota, store, "c08p:", opts...)
+		pl := limit.NewPeriodLimit(c.Period, c.Quota, store, prefix, opts...)
 		model := &c08PModel{quota: c.Quota, keys: map[int]*c08PKey{}}
 		var serverMs int64
 		reached := map[int]bool{} // key reached its quota in some window
@@ -131,7 +136,18 @@ func c08PeriodInterp(t *testing.T, c c08PCase) (v kit.Verdict) {
 				}
 				wasReached := reached[o.Key]
 				want, fresh := model.take(o.Key, serverMs, win)
-				got, err := pl.Take(keyName(o.Key))
+				t0 := srv.realNow()
+				var got int
+				var err error
+				if o.Ctx {
+					got, err = pl.TakeCtx(context.Background(), keyName(o.Key))
+				} else {
+					got, err = pl.Take(keyName(o.Key))
+				}
+				if srv.realNow().Sub(t0) > c08Stall {
+					stalled = true
+					return
+				}
 				if err != nil {
 					fail = fmt.Sprintf("%s: Take error %v", what, err)
 					return
@@ -168,6 +184,7 @@ func c08PeriodInterp(t *testing.T, c c08PCase) (v kit.Verdict) {
 				got := make([]int, o.N)
 				errs := make([]error, o.N)
 				var wg sync.WaitGroup
+				t0 := srv.realNow()
 				for j := 0; j < o.N; j++ {
 					wg.Add(1)
 					go func(j int) {
@@ -176,6 +193,10 @@ func c08PeriodInterp(t *testing.T, c c08PCase) (v kit.Verdict) {
 					}(j)
 				}
 				wg.Wait()
+				if srv.realNow().Sub(t0) > c08Stall {
+					stalled = true
+					return
+				}
 				for _, err := range errs {
 					if err != nil {
 						fail = fmt.Sprintf("%s: concurrent Take error %v", what, err)
@@ -213,6 +234,9 @@ func c08PeriodInterp(t *testing.T, c c08PCase) (v kit.Verdict) {
 	})
 	v.NonTrivial = nontrivial
 	v.Classes = c08Classes(classes)
+	if stalled {
+		return kit.Verdict{Excluded: true, Classes: []string{"excluded-real-time-stall"}}
+	}
 	if fail != "" {
 		v.Fail = fail
 	} else if !res.OK() {
@@ -256,7 +280,7 @@ func c08PeriodGen(rt *rapid.T) c08PCase {
 		case "take":
 			key := rapid.IntRange(0, c.Keys-1).Draw(rt, "key")
 			model.take(key, nowMs, win())
-			c.Ops = append(c.Ops, c08POp{K: "take", Key: key})
+			c.Ops = append(c.Ops, c08POp{K: "take", Key: key, Ctx: rapid.IntRange(0, 4).Draw(rt, "ctx") == 0})
 		case "ctake":
 			key := rapid.IntRange(0, c.Keys-1).Draw(rt, "key")
 			k := rapid.IntRange(2, 12).Draw(rt, "callers")
@@ -294,6 +318,6 @@ func c08PeriodGen(rt *rapid.T) c08PCase {
 
 func TestVerif_C08_period(t *testing.T) {
 	c08GetServer()
-	kit.Run(t, "C08", "period", kit.Opts{Quick: 300, Thorough: 40000}, c08PeriodGen,
+	kit.Run(t, "C08", "period", kit.Opts{Quick: 300, Thorough: 20000}, c08PeriodGen,
 		func(c c08PCase) kit.Verdict { return c08PeriodInterp(t, c) })
 }
